@@ -78,14 +78,24 @@ class Session:
                 self.refs[subkey] = cat
         return self.refs[subkey]
 
-    def request(self, fields, subkey='none', sub=False, check_cols=None, label=''):
+    def request(self, fields, subkey='none', sub=False, check_cols=None, label='', container=None, verbose=False):
         run = self.run
         kw = dict(cleaned=self.cleaned, convert_units=self.units, fields=list(fields) if not isinstance(fields, str) else fields, subsamples=sub)
+        if container == 'tuple':
+            kw['fields'] = tuple(fields)
+        elif container == 'ndarray':
+            kw['fields'] = np.array(list(fields))
+        if verbose:
+            kw['verbose'] = True
         desc = dict(tree=self.tag, request=list(fields) if not isinstance(fields, str) else fields, cleaned=self.cleaned, convert_units=self.units, subsamples=repr(sub), kind=label)
         run.progress(desc)
         run.ev()
         run.count('loads')
-        cat, err = catoracle.load(self.truth['path'], **kw)
+        import contextlib
+        import io
+
+        with contextlib.redirect_stdout(io.StringIO()):
+            cat, err = catoracle.load(self.truth['path'], **kw)
         req = list(fields) if not isinstance(fields, str) else []
         if err is not None:
             run.violation(classify(err, req, kw), dict(error=f'{type(err).__name__}: {err}'[:300], **desc))
@@ -192,6 +202,12 @@ def tree_session(run, rng, k, quick):
                     S.request(req, 'sel', subsel, label='subset+subsamples')
                 else:
                     S.request(req, label='subset')
+            # the request given as a bare name, a tuple (documented: str or list of str, 'any other iter, like tuple'); verbose mode (reports only)
+            for c in ('x_com', 'sigmavMid_L2com', 'N', 'r25_L2com', 'id') + (('N_merge',) if cleaned else ()):
+                S.request(c, check_cols=[c], label='bare-string')
+            S.request(['v_com', 'sigmavMaj_com', 'id'], container='tuple', label='tuple')
+            S.request(['sigmar_com', 'N'], verbose=True, label='verbose')
+            S.request(['npstartA', 'x_com'], 'sel', subsel, verbose=True, label='verbose+subsamples')
             S.request('DEFAULT_FIELDS', check_cols=[n for n in user if n != 'N'] + (['N_total'] if cleaned else ['N']), label='default')
             S.request('DEFAULT_FIELDS', 'sel', subsel, check_cols=[n for n in user if n != 'N'], label='default+subsamples')
             # subsamples requested with columns that do not include the index columns
